@@ -13,7 +13,7 @@ Rec == ndJsonDeserialize(IOEnv.TRACE)
 VARIABLES l, st
 vars == <<l, st>>
 
-StInit == [last |-> <<>>, count |-> 0, run |-> RunInit, lastKey |-> <<>>, cfgs |-> {}, ptypes |-> {}, threads |-> <<>>]
+StInit == [last |-> <<>>, count |-> 0, run |-> RunInit, lastKey |-> <<>>, cfgs |-> {}, ptypes |-> {}, threads |-> <<>>, mesh |-> MeshInit]
 
 TraceInit == l = 1 /\ st = StInit
 
@@ -86,6 +86,20 @@ Pair       == Stateless("pair", PairOK(E))
 Purity     == Stateless("purity", PurityOK(E))
 Instances  == Stateless("instances", InstancesOK(E))
 
+Lookup     == Stateless("lookup", LookupOK(E))
+Interior1  == Stateless("interior1", Interior1OK(E))
+Interior2  == Stateless("interior2", Interior2OK(E))
+Centre     == Stateless("centre", CentreOK(E))
+Owners     == Stateless("owners", OwnersOK(E))
+MeshCells  == /\ IsEvent("meshcells")
+              /\ LET r == MeshCellsResult(E, st.mesh)
+                     ok == r[1] /\ MeshCellsShapeOK(E)
+                 IN Judge(ok) /\ st' = [st EXCEPT !.mesh = r[2]]
+MeshEnd    == IsEvent("meshend") /\ Judge(MeshEndOK(E, st.mesh)) /\ st' = StInit
+Area       == Stateless("area", AreaOK(E))
+AreaMeta   == Stateless("areameta", AreaMetaOK(E))
+Boundary   == Stateless("boundary", BoundaryOK(E))
+
 TraceNext ==
   \/ Reset \/ Codec \/ DecodeEv \/ HexFmtEv \/ HexParseEv
   \/ SortedBlock \/ AncPair \/ RunBlock
@@ -94,6 +108,7 @@ TraceNext ==
   \/ Anchors \/ AnchorsPin \/ AnchorsEnd \/ RelConfig \/ RelFact \/ CoverFact \/ RelEnd \/ ChildGeom
   \/ QuintMap \/ QuintMapPin \/ Call
   \/ ProjStep \/ Pair \/ Purity \/ Instances
+  \/ Lookup \/ Interior1 \/ Interior2 \/ Centre \/ Owners \/ MeshCells \/ MeshEnd \/ Area \/ AreaMeta \/ Boundary
 
 TraceSpec == TraceInit /\ [][TraceNext]_vars
 
